@@ -180,6 +180,8 @@ type c09Case struct {
 	CloseAt   int         `json:"close_at"` // -1: Close after everything joined; k: Close runs concurrently once k frames were processed
 	Closers   int         `json:"closers"`  // how many goroutines call the Close methods at that moment (Close is in the statement's API list)
 	Drill     *c09Drill   `json:"drill,omitempty"`
+	Crowd     int         `json:"crowd,omitempty"`  // stations already tracked when the scenario starts (a big LAN: tables of 100+ entries)
+	Linger    bool        `json:"linger,omitempty"` // the last round stays up for 3 s before Close: loops that rearm timers go through a few cycles
 }
 
 type c09Result struct {
@@ -214,8 +216,13 @@ func c09Pause(p int) {
 
 func c09MAC(w gen.World, m int) ref.MAC {
 	all := append(append([]ref.MAC{}, w.Clients...), w.HostMAC, w.RouterMAC, ref.MAC{0x00, 0x0b, 0x0c, 0x0d, 0x0e, 0x0f})
+	if m >= len(all) { // a station of the crowd (c09Case.Crowd): stations 0, 1, 2, ... of a big LAN
+		return c09CrowdMAC(m - len(all))
+	}
 	return all[m%len(all)]
 }
+
+func c09CrowdMAC(i int) ref.MAC { return ref.MAC{0x00, 0x0c, 0x0c, 0x00, byte(i >> 8), byte(i)} }
 
 func c09IP(w gen.World, i int) netip.Addr {
 	switch {
@@ -597,6 +604,13 @@ func c09ChildRun(c c09Case) (res c09Result) {
 				cw.Wait()
 			}()
 		}
+		if c.Crowd > 0 { // seen once each, before anything runs concurrently
+			cb := make([]byte, packet.EthMaxSize)
+			for i := 0; i < c.Crowd; i++ {
+				f := ref.Eth(w.RouterMAC, c09CrowdMAC(i), 0x0800, ref.IP4(ref.IP4Hdr{TotalLen: -1, TTL: 64, Proto: 17, Checksum: -1, Src: [4]byte{192, 168, 0, byte(20 + i%200)}, Dst: w.RouterIP.As4()}, ref.UDP(40000, 9999, -1, 0, []byte("x"))))
+				guard(func() { e.process(cb[:copy(cb, f)]) })
+			}
+		}
 		close(start)
 		joined := make(chan struct{})
 		go func() { wg.Wait(); close(joined) }()
@@ -625,6 +639,9 @@ func c09ChildRun(c c09Case) (res c09Result) {
 		}
 		// quiescence: everything joined; the purge's probe goroutines must be out before the tables are read
 		waitNoGoroutine(5*time.Second, "packet.(*Session).purge.func")
+		if !closedEarly && c.Linger && round == c.Rounds-1 {
+			time.Sleep(3 * time.Second)
+		}
 		if !closedEarly {
 			if sig, msg := checkTableInvariants(e.s); sig != "" {
 				res.Invariant = sig + "\x00" + msg
@@ -934,6 +951,17 @@ func genC09(t *rapid.T) c09Case {
 	if rapid.IntRange(0, 3).Draw(t, "closeMid") == 0 {
 		c.CloseAt = rapid.IntRange(0, len(c.Frames)-1).Draw(t, "closeAt")
 	}
+	if rapid.IntRange(0, 3).Draw(t, "crowd") == 0 {
+		c.Crowd = rapid.SampledFrom([]int{70, 100, 150}).Draw(t, "crowdN")
+		for a := range c.Actors { // some of the actors' calls are about stations deep in the tables
+			for k := range c.Actors[a] {
+				if rapid.IntRange(0, 2).Draw(t, "crowdCall") == 0 {
+					c.Actors[a][k].M = 7 + rapid.IntRange(0, c.Crowd-1).Draw(t, "crowdM")
+				}
+			}
+		}
+	}
+	c.Linger = rapid.IntRange(0, 3).Draw(t, "linger") == 0
 	if rapid.IntRange(0, 2).Draw(t, "drill") == 0 {
 		c.Drill = &c09Drill{Iters: rapid.SampledFrom([]int{200, 500, 1000}).Draw(t, "drillIters"), Free: rapid.SampledFrom([]int{1, 1, 1, 2, 0, 3}).Draw(t, "drillFree"), N: rapid.IntRange(1, 3).Draw(t, "drillN")}
 	}
